@@ -182,6 +182,11 @@ func (k *c12run) checkLaws() {
 // raw Jaro-Winkler layer on byte strings
 func (k *c12run) jw(a, b string, boost c12rat, prefix int, tie bool) {
 	c := k.c
+	defer func() {
+		if r := recover(); r != nil {
+			c.Oracle("", "JaroWinkler panicked instead of returning a score", map[string]interface{}{"a": a, "b": b, "boost": boost.String(), "prefix": prefix}, fmt.Sprint(r), "a score in [0,1]")
+		}
+	}()
 	if tie {
 		gedcom.JaroWinkler(a, b, c12otherBoost(boost).f(), prefix) // history probe, one direction only
 	}
@@ -214,6 +219,12 @@ func c12otherBoost(t c12rat) c12rat {
 
 func (k *c12run) strsim(a, b string, boost c12rat, prefix int) {
 	c := k.c
+	// a score is a number: a crash inside the library is a failure of the property on this input
+	defer func() {
+		if r := recover(); r != nil {
+			c.Oracle("", "StringSimilarity panicked instead of returning a score", map[string]interface{}{"a": a, "b": b, "boost": boost.String(), "prefix": prefix}, fmt.Sprint(r), "a score in [0,1]")
+		}
+	}()
 	// history probe: the pair is first scored in ONE direction under another boost threshold (same
 	// prefix size); the scores under the requested options must not remember that call
 	other := c12otherBoost(boost)
@@ -372,6 +383,19 @@ func (k *c12run) strings() {
 		k.strsim(a, b, c12boosts[k.r.Intn(len(c12boosts))], k.r.Intn(11))
 		c.Count("string:names")
 		c.Nontrivial("ss:" + a + "|" + b)
+	}
+	// (4b) short names without any ASCII letter or digit (they reach jaro / JaroWinkler as they are):
+	// every pair of a pool in which one string is a prefix of another, under every prefix size, so
+	// that rune counts and byte counts differ at every loop bound of the prefix scan
+	c12raw := []string{"李", "李 伟", "李 伟明", "山田", "山田 太郎", "山田 太", "Ωμέγα", "Ωμέ", "Ωμέγας", "Ø", "ØÅ", "ØÅÆ",
+		"王小", "王小明", "Дми", "Дмитрий", "é", "éé", "ééé", "…", "… —", "—"}
+	for _, a := range c12raw {
+		for _, b := range c12raw {
+			for _, pf := range []int{0, 1, 2, 3, 4, 8, 10} {
+				k.strsim(a, b, c12boosts[(len(a)+len(b)+pf)%len(c12boosts)], pf)
+				c.Count("string:non-ascii-short")
+			}
+		}
 	}
 	// pinned: the witness of the known finding and the specials of the normalisation
 	for _, p := range [][2]string{{"王小明", "王小明"}, {"İ", "i"}, {"K", "k"}, {"a     b", "a  b"}, {"a   b", "a b"},
